@@ -89,7 +89,7 @@ Print Assumptions C20_sunos_terminal_refuted.
 
 (* the front end of every platform exposes the documented names and Process methods; __all__ resolves *)
 Theorem C20_names_exposed : forall n, In n names_rows ->
-  (forall d, In d (doc_names (nm_plat n)) -> In d (nm_dir n)) /\
+  (forall d, In d (doc_names (nm_plat n)) -> In d (nm_all n)) /\
   (forall d, In d (doc_methods (nm_plat n)) -> In d (nm_methods n)) /\
   (forall a, In a (nm_all n) -> In a (nm_dir n)).
 Proof. exact names_exposed. Qed.
